@@ -459,3 +459,596 @@ Proof.
   rewrite merge_loop_single; [reflexivity | assumption | | lia].
   intros c Hc. apply Ht. now right.
 Qed.
+
+(* ================================================================================================
+   4. mro.mro : independent sanity (C3 properties) on acyclic hierarchies
+   ================================================================================================ *)
+Lemma tp_bases_getbases (h : hier) c : tp_bases h c = getbases h c.
+Proof.
+  unfold getbases. induction h as [|[k bs] h IH]; [reflexivity|].
+  cbn [tp_bases assoc]. destruct (N.eqb k c); [reflexivity | exact IH].
+Qed.
+
+Lemma mro_all_ok g bs ms : mro_all g bs = LOk ms -> Forall2 (fun b m => g b = MOk m) bs ms.
+Proof.
+  revert ms. induction bs as [|b bs IH]; intros ms; cbn [mro_all].
+  - intros H. injection H as <-. constructor.
+  - destruct (g b) as [m| |] eqn:Hg; try discriminate.
+    destruct (mro_all g bs) as [ms'| |]; try discriminate.
+    intros H. injection H as <-. constructor; [assumption | now apply IH].
+Qed.
+
+Lemma Forall2_in_l {X Y} (P : X -> Y -> Prop) xs ys x :
+  Forall2 P xs ys -> In x xs -> exists y, In y ys /\ P x y.
+Proof.
+  induction 1 as [|x0 y0 xs ys Hp HF IH]; [contradiction|].
+  intros [->|Hx]; [exists y0; split; [now left | assumption]|].
+  destruct (IH Hx) as (y & Hy & Hpy). exists y. split; [now right | assumption].
+Qed.
+
+Lemma Forall2_in_r {X Y} (P : X -> Y -> Prop) xs ys y :
+  Forall2 P xs ys -> In y ys -> exists x, In x xs /\ P x y.
+Proof.
+  induction 1 as [|x0 y0 xs ys Hp HF IH]; [contradiction|].
+  intros [->|Hy]; [exists x0; split; [now left | assumption]|].
+  destruct (IH Hy) as (x & Hx & Hpx). exists x. split; [now right | assumption].
+Qed.
+
+Lemma mro_S f h c :
+  mro (S f) h c =
+  match getbases h c with
+  | [] => MOk [c]
+  | bs => match mro_all (mro f h) bs with
+          | LOk ms => match merge (ms ++ [bs]) with MOk r => MOk (c :: r) | e => e end
+          | LValueError => MValueError
+          | LOutOfFuel => MOutOfFuel
+          end
+  end.
+Proof. reflexivity. Qed.
+
+Lemma mro_ok_inv f h c r :
+  mro (S f) h c = MOk r ->
+  (getbases h c = [] /\ r = [c]) \/
+  (exists ms r', getbases h c <> [] /\ mro_all (mro f h) (getbases h c) = LOk ms /\
+                 merge (ms ++ [getbases h c]) = MOk r' /\ r = c :: r').
+Proof.
+  rewrite mro_S. destruct (getbases h c) as [|b bs] eqn:Hb; cbv zeta.
+  - intros H. injection H as <-. now left.
+  - destruct (mro_all (mro f h) (b :: bs)) as [ms| |] eqn:Ha; try discriminate.
+    destruct (merge (ms ++ [b :: bs])) as [r'| |] eqn:Hm; try discriminate.
+    intros H. cbv beta iota in H. injection H as <-. right. exists ms, r'. repeat split; try assumption. discriminate.
+Qed.
+
+(* what C3 promises about the linearisation r of class c (f = the fuel left for the bases) *)
+Definition c3_ok (h : hier) (f : nat) (c : cls) (r : list cls) : Prop :=
+  exists r', r = c :: r' /\ NoDup r /\ (forall x, In x r <-> ancestor h c x) /\
+    subseq (getbases h c) r' /\
+    forall b, In b (getbases h c) -> exists rb, mro f h b = MOk rb /\ subseq rb r'.
+
+Lemma ancestor_rank h rank b x : acyclic h rank -> ancestor h b x -> rank x <= rank b.
+Proof.
+  intros Ha. induction 1 as [c | c b x Hb Hanc IH]; [lia|].
+  specialize (Ha c b Hb). lia.
+Qed.
+
+Lemma mro_c3_gen h rank :
+  acyclic h rank -> forall n c r, mro n h c = MOk r -> exists f, n = S f /\ c3_ok h f c r.
+Proof.
+  intros Ha. induction n as [|f IH]; intros c r Hm; [discriminate|].
+  exists f. split; [reflexivity|].
+  destruct (mro_ok_inv f h c r Hm) as [[Hb ->] | (ms & r' & Hne & Hall & Hmerge & ->)].
+  - exists []. rewrite Hb. repeat split.
+    + constructor; [tauto | constructor].
+    + intros [<-|[]]. constructor.
+    + intros Hanc. inversion Hanc as [|? b ? Hin]; subst; [now left|].
+      rewrite tp_bases_getbases, Hb in Hin. contradiction.
+    + constructor.
+    + contradiction.
+  - pose proof (mro_all_ok _ _ _ Hall) as HF.
+    pose proof (merge_Merges _ _ Hmerge) as HM.
+    pose proof (Merges_elements _ _ HM) as Hel.
+    assert (Hanc_in : forall x, In x r' <-> exists b, In b (getbases h c) /\ ancestor h b x).
+    { intros x. rewrite Hel. split.
+      - intros (l & Hl & Hx). apply in_app_or in Hl. destruct Hl as [Hl | [<-|[]]].
+        + destruct (Forall2_in_r _ _ _ l HF Hl) as (b & Hb & Hmb).
+          destruct (IH b l Hmb) as (f0 & -> & (r0 & _ & _ & Hiff & _)).
+          exists b. split; [assumption | now apply Hiff].
+        + exists x. split; [assumption | constructor].
+      - intros (b & Hb & Hanc). destruct (Forall2_in_l _ _ _ b HF Hb) as (m & Hm' & Hmb).
+        destruct (IH b m Hmb) as (f0 & -> & (r0 & _ & _ & Hiff & _)).
+        exists m. split; [apply in_or_app; now left | now apply Hiff]. }
+    exists r'. repeat split.
+    + constructor; [|eapply Merges_NoDup; eassumption].
+      intros Hin. apply Hanc_in in Hin. destruct Hin as (b & Hb & Hanc).
+      pose proof (ancestor_rank h rank b c Ha Hanc).
+      rewrite <- tp_bases_getbases in Hb. specialize (Ha c b Hb). lia.
+    + intros [<-|Hx]; [constructor|]. apply Hanc_in in Hx. destruct Hx as (b & Hb & Hanc).
+      econstructor; [rewrite tp_bases_getbases; eassumption | assumption].
+    + intros Hanc. inversion Hanc as [|? b ? Hin Hanc']; subst; [now left|]. right.
+      apply Hanc_in. exists b. split; [now rewrite <- tp_bases_getbases | assumption].
+    + eapply Merges_subseq; [eassumption|]. apply in_or_app. right. now left.
+    + intros b Hb. destruct (Forall2_in_l _ _ _ b HF Hb) as (m & Hm' & Hmb).
+      exists m. split; [assumption|]. eapply Merges_subseq; [eassumption|]. apply in_or_app. now left.
+Qed.
+
+(* ================================================================================================
+   5. mro.mro = CPython's mro_implementation
+   ================================================================================================ *)
+Definition bases_truthy (h : hier) : Prop := forall c b, In b (getbases h c) -> truthy b = true.
+
+Lemma ancestor_truthy h b x : bases_truthy h -> truthy b = true -> ancestor h b x -> truthy x = true.
+Proof.
+  intros Ht Hb Hanc. induction Hanc as [c | c b x Hin Hanc IH]; [assumption|].
+  apply IH. apply (Ht c). now rewrite <- tp_bases_getbases.
+Qed.
+
+Lemma mro_all_lookup (g : cls -> mres) (g' : N -> cres) bs :
+  (forall b, In b bs -> as_spec (g b) = g' b) ->
+  lookup_tp_mros g' bs =
+  match mro_all g bs with LOk ms => inl ms | LValueError => inr CTypeError | LOutOfFuel => inr COutOfFuel end.
+Proof.
+  induction bs as [|b bs IH]; intros H; [reflexivity|].
+  cbn [lookup_tp_mros mro_all]. rewrite <- (H b) by now left.
+  destruct (g b) as [m| |]; cbn [as_spec]; try reflexivity.
+  rewrite IH by (intros b' Hb'; apply H; now right).
+  destruct (mro_all g bs); reflexivity.
+Qed.
+
+Lemma pmerge_loop_acc f : forall tm rm acc,
+  pmerge_loop f tm rm acc = match pmerge_loop f tm rm [] with COk r => COk (acc ++ r) | e => e end.
+Proof.
+  induction f as [|f IH]; intros tm rm acc; [reflexivity|].
+  cbn [pmerge_loop]. destruct (scan tm rm (combine tm rm) 0) as [c|e].
+  - rewrite (IH _ _ (acc ++ [c])), (IH _ _ ([] ++ [c])).
+    destruct (pmerge_loop f tm (advance tm rm c) []); try reflexivity. now rewrite <- app_assoc.
+  - destruct (Nat.eqb e (length tm)); [now rewrite app_nil_r | reflexivity].
+Qed.
+
+Lemma pmerge_acc acc ls : pmerge acc ls = match pmerge [] ls with COk r => COk (acc ++ r) | e => e end.
+Proof. unfold pmerge. apply pmerge_loop_acc. Qed.
+
+Lemma has_duplicates_true l : has_duplicates l = true -> ~ NoDup l.
+Proof.
+  induction l as [|b rest IH]; [discriminate|]. cbn [has_duplicates].
+  intros H Hn. inversion Hn as [|? ? Hb Hn']; subst. apply orb_true_iff in H. destruct H as [H|H].
+  - apply Hb. apply existsb_exists in H. destruct H as (x & Hx & He). apply N.eqb_eq in He. now subst.
+  - now apply IH.
+Qed.
+
+Lemma mro_equal h rank :
+  acyclic h rank -> bases_truthy h -> forall f c, as_spec (mro f h c) = cpython_mro f h c.
+Proof.
+  intros Ha Ht. induction f as [|f IH]; intros c; [reflexivity|].
+  rewrite mro_S. cbn [cpython_mro]. rewrite tp_bases_getbases.
+  rewrite (mro_all_lookup (mro f h) (cpython_mro f h)) by (intros; apply IH).
+  destruct (getbases h c) as [|b1 bs] eqn:Hb; [reflexivity|]. cbv zeta.
+  destruct (mro_all (mro f h) (b1 :: bs)) as [ms| |] eqn:Hall; try reflexivity.
+  pose proof (mro_all_ok _ _ _ Hall) as HF.
+  assert (Hms : forall l, In l ms -> forall x, In x l -> truthy x = true).
+  { intros l Hl x Hx. destruct (Forall2_in_r _ _ _ l HF Hl) as (b & Hbin & Hmb).
+    destruct (mro_c3_gen h rank Ha f b l Hmb) as (f0 & _ & (r0 & _ & _ & Hiff & _)).
+    apply (ancestor_truthy h b x Ht); [apply (Ht c); now rewrite Hb | now apply Hiff]. }
+  destruct bs as [|b2 bs].
+  - inversion HF as [|? m ? ms' Hm HF']; subst. inversion HF'; subst. cbn [app].
+    destruct (mro_c3_gen h rank Ha f b1 m Hm) as (f0 & _ & (r0 & -> & Hnd & _)).
+    rewrite merge_single_base; [reflexivity | assumption |].
+    apply (Hms (b1 :: r0)). now left.
+  - destruct (has_duplicates (b1 :: b2 :: bs)) eqn:Hd.
+    + rewrite (merge_dup_fails (ms ++ [b1 :: b2 :: bs]) (b1 :: b2 :: bs));
+        [reflexivity | apply in_or_app; right; now left | now apply has_duplicates_true].
+    + rewrite pmerge_acc, <- merge_refines.
+      * unfold tuple, cls in *. destruct (merge (ms ++ [b1 :: b2 :: bs])); reflexivity.
+      * intros l Hl x Hx. apply in_app_or in Hl. destruct Hl as [Hl | [<-|[]]].
+        -- exact (Hms l Hl x Hx).
+        -- apply (Ht c). now rewrite Hb.
+Qed.
+
+(* ================================================================================================
+   6. fuel of mro.mro
+   ================================================================================================ *)
+Lemma getbases_key (h : hier) c : getbases h c <> [] -> In c (map fst h).
+Proof.
+  unfold getbases. induction h as [|[k bs] h IH]; cbn [assoc map fst]; [congruence|].
+  destruct (N.eqb k c) eqn:E; [apply N.eqb_eq in E; now left | intros H; right; now apply IH].
+Qed.
+
+Lemma mro_all_no_fuel g bs : (forall b, In b bs -> g b <> MOutOfFuel) -> mro_all g bs <> LOutOfFuel.
+Proof.
+  induction bs as [|b bs IH]; intros H; [discriminate|]. cbn [mro_all].
+  destruct (g b) as [m| |] eqn:Hg; [|discriminate|exfalso; apply (H b); [now left | assumption]].
+  assert (mro_all g bs <> LOutOfFuel) by (apply IH; intros b' Hb'; apply H; now right).
+  destruct (mro_all g bs); [discriminate | discriminate | congruence].
+Qed.
+
+Lemma mro_fuel_gen h rank :
+  acyclic h rank ->
+  forall f p c, NoDup p -> incl p (map fst h) -> (forall x, In x p -> rank c < rank x) ->
+                length h < f + length p -> mro f h c <> MOutOfFuel.
+Proof.
+  intros Ha. induction f as [|f IH]; intros p c Hn Hi Hr Hf.
+  - exfalso. pose proof (NoDup_incl_length Hn Hi) as Hl. rewrite map_length in Hl. lia.
+  - rewrite mro_S. destruct (getbases h c) as [|b bs] eqn:Hb; [discriminate|]. cbv zeta.
+    assert (Hall : mro_all (mro f h) (b :: bs) <> LOutOfFuel).
+    { apply mro_all_no_fuel. intros b' Hb'.
+      assert (Hrank : rank b' < rank c) by (apply Ha; now rewrite tp_bases_getbases, Hb).
+      apply (IH (c :: p)).
+      - constructor; [|assumption]. intros Hin. specialize (Hr c Hin). lia.
+      - intros x [<-|Hx]; [apply getbases_key; rewrite Hb; discriminate | now apply Hi].
+      - intros x [<-|Hx]; [assumption | specialize (Hr x Hx); lia].
+      - cbn [length]. lia. }
+    destruct (mro_all (mro f h) (b :: bs)) as [ms| |]; [|discriminate|congruence].
+    pose proof (merge_fuel (ms ++ [b :: bs])) as Hmf.
+    destruct (merge (ms ++ [b :: bs])); [discriminate | discriminate | congruence].
+Qed.
+
+Lemma mro_fuel_ok h rank c : acyclic h rank -> mro (mro_fuel h) h c <> MOutOfFuel.
+Proof.
+  intros Ha. unfold mro_fuel. apply (mro_fuel_gen h rank Ha _ []).
+  - constructor.
+  - intros x [].
+  - intros x [].
+  - change (length h < S (length h) + 0). lia.
+Qed.
+
+(* ================================================================================================
+   7. model.compute_mro / Class._init_mro on acyclic hierarchies
+   ================================================================================================ *)
+Lemma NoDup_snoc {X} (p : list X) o : NoDup p -> ~ In o p -> NoDup (p ++ [o]).
+Proof.
+  induction p as [|a p IH]; intros Hn Ho; cbn [app].
+  - constructor; [tauto | constructor].
+  - inversion Hn as [|? ? Ha Hn']; subst. constructor.
+    + intros Hin. apply in_app_or in Hin. destruct Hin as [Hin | [<-|[]]]; [now apply Ha|].
+      apply Ho. now left.
+    + apply IH; [assumption|]. intros Hin. apply Ho. now right.
+Qed.
+
+Lemma for_bases_ok g bs : (forall b, In b bs -> g b = DOk) -> for_bases g bs = DOk.
+Proof.
+  induction bs as [|b bs IH]; intros H; [reflexivity|]. cbn [for_bases].
+  rewrite (H b) by now left. apply IH. intros b' Hb'. apply H. now right.
+Qed.
+
+Lemma init_final_acyclic h rank :
+  acyclic h rank ->
+  forall f p o, NoDup p -> incl p (map fst h) -> (forall x, In x p -> rank o < rank x) ->
+                length h < f + length p -> init_final f h p o = DOk.
+Proof.
+  intros Ha. induction f as [|f IH]; intros p o Hn Hi Hr Hf.
+  - exfalso. pose proof (NoDup_incl_length Hn Hi) as Hl. rewrite map_length in Hl. lia.
+  - cbn [init_final].
+    assert (Ho : ~ In o p) by (intros Hin; specialize (Hr o Hin); lia).
+    apply mem_false_iff in Ho. rewrite Ho. apply mem_false_iff in Ho.
+    apply for_bases_ok. intros b Hb. apply filter_In in Hb. destruct Hb as [Hb _].
+    assert (Hrank : rank b < rank o) by (apply Ha; now rewrite tp_bases_getbases).
+    apply IH.
+    + now apply NoDup_snoc.
+    + intros x Hx. apply in_app_or in Hx. destruct Hx as [Hx | [<-|[]]]; [now apply Hi|].
+      apply getbases_key. intros E. rewrite E in Hb. contradiction.
+    + intros x Hx. apply in_app_or in Hx. destruct Hx as [Hx | [<-|[]]]; [specialize (Hr x Hx); lia | assumption].
+    + rewrite app_length. cbn [length]. unfold cls in *. lia.
+Qed.
+
+Lemma compute_mro_acyclic h rank c :
+  acyclic h rank ->
+  compute_mro h c = match mro (mro_fuel h) h c with
+                    | MOk l => (KOk, l)
+                    | MValueError => (KLinearization, [])
+                    | MOutOfFuel => (KFuel, [])
+                    end.
+Proof.
+  intros Ha. unfold compute_mro. rewrite (init_final_acyclic h rank Ha); [reflexivity | constructor | | |].
+  - intros x [].
+  - intros x [].
+  - unfold mro_fuel. change (length h < S (length h) + 0). lia.
+Qed.
+
+(* the linearisation Class._init_mro stores is CPython's, and a rejected hierarchy is reported *)
+Lemma init_mro_equal h rank c :
+  acyclic h rank -> bases_truthy h ->
+  match init_mro h c with
+  | (KOk, l) => cpython_mro (mro_fuel h) h c = COk l
+  | (KLinearization, _) => cpython_mro (mro_fuel h) h c = CTypeError
+  | _ => False
+  end.
+Proof.
+  intros Ha Ht. unfold init_mro. rewrite (compute_mro_acyclic h rank c Ha).
+  pose proof (mro_equal h rank Ha Ht (mro_fuel h) c) as He.
+  pose proof (mro_fuel_ok h rank c Ha) as Hf.
+  destruct (mro (mro_fuel h) h c) as [l| |]; cbn [as_spec] in He; [now symmetry | now symmetry | congruence].
+Qed.
+
+Lemma mro_all_mono g g' bs :
+  (forall b, g b <> MOutOfFuel -> g' b = g b) -> mro_all g bs <> LOutOfFuel -> mro_all g' bs = mro_all g bs.
+Proof.
+  intros H. induction bs as [|b bs IH]; intros Hn; [reflexivity|]. cbn [mro_all] in *.
+  destruct (g b) as [m| |] eqn:Hg.
+  - rewrite (H b), Hg by congruence.
+    rewrite IH; [reflexivity|]. intros E. rewrite E in Hn. congruence.
+  - rewrite (H b), Hg by congruence. reflexivity.
+  - congruence.
+Qed.
+
+Lemma mro_fuel_mono h f : forall c, mro f h c <> MOutOfFuel -> mro (S f) h c = mro f h c.
+Proof.
+  induction f as [|f IH]; intros c Hn; [now contradiction Hn|].
+  rewrite (mro_S (S f)), (mro_S f). rewrite (mro_S f) in Hn.
+  destruct (getbases h c) as [|b bs]; [reflexivity|]. cbv zeta in *.
+  rewrite (mro_all_mono (mro f h) (mro (S f) h)); [reflexivity | exact IH |].
+  intros E. rewrite E in Hn. congruence.
+Qed.
+
+(* a class one of whose bases is rejected is itself reported, never silently linearised *)
+Lemma rejected_base_reported h c b :
+  In b (getbases h c) -> fst (init_mro h c) = KOk -> fst (compute_mro h c) = KOk ->
+  exists m, mro (mro_fuel h) h b = MOk m.
+Proof.
+  intros Hb _ Hc. unfold compute_mro in Hc.
+  destruct (init_final (mro_fuel h) h [] c); try discriminate.
+  destruct (mro (mro_fuel h) h c) as [l| |] eqn:Hm; try discriminate.
+  unfold mro_fuel in *. destruct (mro_ok_inv _ _ _ _ Hm) as [[E _] | (ms & r' & _ & Hall & _)].
+  - rewrite E in Hb. contradiction.
+  - destruct (Forall2_in_l _ _ _ b (mro_all_ok _ _ _ Hall) Hb) as (m & _ & Hmb).
+    exists m. rewrite mro_fuel_mono; [assumption | congruence].
+Qed.
+
+Lemma mro_head f h c r : mro f h c = MOk r -> exists r', r = c :: r'.
+Proof.
+  destruct f as [|f]; [discriminate|]. intros Hm.
+  destruct (mro_ok_inv _ _ _ _ Hm) as [[_ ->] | (ms & r' & _ & _ & _ & ->)]; eexists; reflexivity.
+Qed.
+
+Lemma class_mro_head h c : is_class h c = true -> exists rest, class_mro h c = c :: rest.
+Proof.
+  intros Hc. unfold class_mro, init_mro, compute_mro.
+  assert (Hfb : exists rest, filter (is_class h) (allbases (mro_fuel h) h c) = c :: rest).
+  { unfold mro_fuel. cbn [allbases filter]. rewrite Hc. eexists. reflexivity. }
+  destruct (init_final (mro_fuel h) h [] c); cbn [snd]; try exact Hfb.
+  destruct (mro (mro_fuel h) h c) as [l| |] eqn:Hm; cbn [snd]; try exact Hfb.
+  destruct (mro_head _ _ _ _ Hm) as (r' & ->). cbn [filter]. rewrite Hc. eexists. reflexivity.
+Qed.
+
+(* ---- Class.find = attribute lookup along the MRO ---------------------------------------------- *)
+Definition defines_of (ns : namespace) (c n : N) : bool :=
+  match contents_get ns c n with Some _ => true | None => false end.
+Definition doc_of (ns : namespace) (c n : N) : option N :=
+  match contents_get ns c n with Some o => m_doc o | None => None end.
+
+Lemma find_in_some ns m n d o :
+  find_in ns m n = Some (d, o) -> lookup (defines_of ns) m n d /\ contents_get ns d n = Some o.
+Proof.
+  induction m as [|base m IH]; [discriminate|]. cbn [find_in].
+  destruct (contents_get ns base n) as [obj|] eqn:E.
+  - intros H. injection H as <- <-. split; [|assumption].
+    exists [], m. repeat split; [unfold defines_of; now rewrite E | contradiction].
+  - intros H. destruct (IH H) as [(before & after & -> & Hd & Hb) Hc]. split; [|assumption].
+    exists (base :: before), after. repeat split; [assumption|].
+    intros x [<-|Hx]; [unfold defines_of; now rewrite E | now apply Hb].
+Qed.
+
+Lemma find_in_none ns m n : find_in ns m n = None -> lookup_fails (defines_of ns) m n.
+Proof.
+  induction m as [|base m IH]; [intros _ x []|]. cbn [find_in].
+  destruct (contents_get ns base n) as [obj|] eqn:E; [discriminate|].
+  intros H x [<-|Hx]; [unfold defines_of; now rewrite E | now apply IH].
+Qed.
+
+Lemma lookup_find_in ns m n d :
+  lookup (defines_of ns) m n d -> exists o, find_in ns m n = Some (d, o) /\ contents_get ns d n = Some o.
+Proof.
+  intros (before & after & -> & Hd & Hb). induction before as [|x before IH]; cbn [app find_in].
+  - unfold defines_of in Hd. destruct (contents_get ns d n) as [o|]; [|discriminate]. now exists o.
+  - assert (Hx : defines_of ns x n = false) by (apply Hb; now left).
+    unfold defines_of in Hx. destruct (contents_get ns x n); [discriminate|].
+    apply IH. intros y Hy. apply Hb. now right.
+Qed.
+
+(* ---- docstring inheritance -------------------------------------------------------------------- *)
+Definition src_at (ns : namespace) (n : N) (b : cls) : list (cls * member) :=
+  match contents_get ns b n with Some o => [(b, o)] | None => [] end.
+
+Lemma docsources_full ns c rest self :
+  contents_get ns c (m_name self) = Some self ->
+  docsources_of ns (c :: rest) c self = flat_map (src_at ns (m_name self)) (c :: rest).
+Proof. intros H. unfold docsources_of. cbn [d_tail flat_map]. unfold src_at at 1. rewrite H. reflexivity. Qed.
+
+Definition shown_doc (k : N) : option N := if N.eqb k 0 then None else Some k.
+
+Lemma get_docstring_from_spec ns n m :
+  (forall d s, get_docstring_from (flat_map (src_at ns n) m) = (d, Some s) ->
+     exists k, getdoc (defines_of ns) (doc_of ns) m n s k /\ d = shown_doc k) /\
+  (forall d, get_docstring_from (flat_map (src_at ns n) m) = (d, None) ->
+     d = None /\ getdoc_none (defines_of ns) (doc_of ns) m n).
+Proof.
+  induction m as [|b m [IH1 IH2]].
+  - split; [discriminate|]. intros d H. injection H as <-. split; [reflexivity | intros x []].
+  - cbn [flat_map]. unfold src_at at 1 3.
+    destruct (contents_get ns b n) as [o|] eqn:E; cbn [app get_docstring_from].
+    + destruct (m_doc o) as [k|] eqn:Ed.
+      * split.
+        -- intros d s H. exists k. split.
+           ++ assert (s = b) as -> by (destruct (negb (N.eqb k 0)); now injection H).
+              exists [], m. repeat split; [unfold defines_of; now rewrite E | unfold doc_of; now rewrite E | contradiction].
+           ++ unfold shown_doc. destruct (N.eqb k 0); cbn [negb] in H; now injection H.
+        -- intros d H. destruct (negb (N.eqb k 0)); discriminate.
+      * split.
+        -- intros d s H. destruct (IH1 d s H) as (k & (before & after & -> & Hd & Hk & Hb) & ->).
+           exists k. split; [|reflexivity]. exists (b :: before), after. repeat split; try assumption.
+           intros x [<-|Hx]; [right; unfold doc_of; now rewrite E | now apply Hb].
+        -- intros d H. destruct (IH2 d H) as [-> Hg]. split; [reflexivity|].
+           intros x [<-|Hx]; [right; unfold doc_of; now rewrite E | now apply Hg].
+    + split.
+      * intros d s H. destruct (IH1 d s H) as (k & (before & after & -> & Hd & Hk & Hb) & ->).
+        exists k. split; [|reflexivity]. exists (b :: before), after. repeat split; try assumption.
+        intros x [<-|Hx]; [left; unfold defines_of; now rewrite E | now apply Hb].
+      * intros d H. destruct (IH2 d H) as [-> Hg]. split; [reflexivity|].
+        intros x [<-|Hx]; [left; unfold defines_of; now rewrite E | now apply Hg].
+Qed.
+
+Lemma get_docstring_spec h ns c self :
+  is_class h c = true -> contents_get ns c (m_name self) = Some self ->
+  (forall d s, get_docstring h ns c self = (d, Some s) ->
+     exists k, getdoc (defines_of ns) (doc_of ns) (class_mro h c) (m_name self) s k /\ d = shown_doc k) /\
+  (forall d, get_docstring h ns c self = (d, None) ->
+     d = None /\ getdoc_none (defines_of ns) (doc_of ns) (class_mro h c) (m_name self)).
+Proof.
+  intros Hc Hs. unfold get_docstring, docsources.
+  destruct (class_mro_head h c Hc) as (rest & ->). rewrite (docsources_full ns c rest self Hs).
+  apply get_docstring_from_spec.
+Qed.
+
+(* ---- inherited-member tables ------------------------------------------------------------------ *)
+Lemma firstn_S_nth {X} (d : X) (m : list X) i : i < length m -> firstn (S i) m = firstn i m ++ [nth i m d].
+Proof.
+  revert i. induction m as [|a m IH]; intros i Hi; cbn [length] in Hi; [lia|].
+  destruct i as [|i]; [reflexivity|]. cbn [firstn nth app]. f_equal. apply IH. lia.
+Qed.
+
+Lemma split_at_nth {X} (d : X) (m : list X) i : i < length m -> m = firstn i m ++ nth i m d :: skipn (S i) m.
+Proof.
+  revert i. induction m as [|a m IH]; intros i Hi; cbn [length] in Hi; [lia|].
+  destruct i as [|i]; [reflexivity|]. cbn [firstn nth app skipn]. f_equal. apply IH. lia.
+Qed.
+
+Lemma unmasked_lookup ns (m : list cls) bl o :
+  In bl (nested_bases_of m) -> In o (unmasked_attrs ns bl) ->
+  exists b0 rest, bl = b0 :: rest /\ In o (ns b0) /\ lookup (defines_of ns) m (m_name o) b0.
+Proof.
+  unfold nested_bases_of. intros Hbl Ho. apply in_map_iff in Hbl. destruct Hbl as (i & <- & Hi).
+  apply in_seq in Hi. destruct Hi as [_ Hi]. cbn [Nat.add] in Hi.
+  unfold cls in *. rewrite (firstn_S_nth 0%N m i Hi) in Ho |- *. rewrite rev_app_distr in Ho |- *. cbn [rev app] in Ho |- *.
+  exists (nth i m 0%N), (rev (firstn i m)). split; [reflexivity|].
+  cbn [unmasked_attrs] in Ho. apply filter_In in Ho. destruct Ho as [Hin Hmask]. split; [assumption|].
+  apply negb_true_iff, mem_false_iff in Hmask.
+  exists (firstn i m), (skipn (S i) m). repeat split.
+  - apply split_at_nth. exact Hi.
+  - unfold defines_of, contents_get.
+    destruct (find (fun m0 => N.eqb (m_name m0) (m_name o)) (ns (nth i m 0%N))) eqn:E; [reflexivity|].
+    pose proof (find_none _ _ E o Hin) as Hf. cbn beta in Hf. rewrite N.eqb_refl in Hf. discriminate.
+  - intros x Hx. unfold defines_of, contents_get.
+    destruct (find (fun m0 => N.eqb (m_name m0) (m_name o)) (ns x)) as [o'|] eqn:E; [|reflexivity].
+    exfalso. apply Hmask. apply find_some in E. destruct E as [Hin' He]. apply N.eqb_eq in He.
+    apply in_flat_map. exists x. split; [now apply -> in_rev|].
+    rewrite <- He. now apply in_map.
+Qed.
+
+(* ================================================================================================
+   8. inheritance cycles are reported
+   ================================================================================================ *)
+Inductive reach (h : hier) : cls -> cls -> Prop :=
+| reach_base : forall a b, In b (getbases h a) -> is_class h b = true -> reach h a b
+| reach_step : forall a b c, In b (getbases h a) -> is_class h b = true -> reach h b c -> reach h a c.
+
+Definition reaches_cycle (h : hier) (c : cls) : Prop :=
+  reach h c c \/ exists d, reach h c d /\ reach h d d.
+
+Lemma for_bases_DOk g bs : for_bases g bs = DOk -> forall b, In b bs -> g b = DOk.
+Proof.
+  induction bs as [|b0 bs IH]; intros H b Hb; [contradiction|]. cbn [for_bases] in H.
+  destruct (g b0) eqn:E; try discriminate. destruct Hb as [<-|Hb]; [assumption | now apply IH].
+Qed.
+
+Lemma init_final_ok_inv f h p o :
+  init_final (S f) h p o = DOk ->
+  ~ In o p /\ forall b, In b (getbases h o) -> is_class h b = true -> init_final f h (p ++ [o]) b = DOk.
+Proof.
+  cbn [init_final]. destruct (mem o p) eqn:E; [discriminate|]. intros H. split; [now apply mem_false_iff|].
+  intros b Hb Hc. apply (for_bases_DOk _ _ H). apply filter_In. now split.
+Qed.
+
+Lemma init_final_ok_notin f h p o : init_final f h p o = DOk -> ~ In o p.
+Proof. destruct f; [discriminate|]. intros H. now apply init_final_ok_inv in H. Qed.
+
+Lemma init_final_ok_reach h f : forall p o, init_final f h p o = DOk -> forall x, reach h o x -> ~ In x (p ++ [o]).
+Proof.
+  induction f as [|f IH]; intros p o H x Hr; [discriminate|].
+  destruct (init_final_ok_inv _ _ _ _ H) as [_ Hb].
+  inversion Hr as [? b Hin Hc | ? b ? Hin Hc Hr']; subst.
+  - exact (init_final_ok_notin _ _ _ _ (Hb x Hin Hc)).
+  - intros Hx. apply (IH _ _ (Hb b Hin Hc) x Hr'). apply in_or_app. now left.
+Qed.
+
+Lemma init_final_ok_down h a d :
+  reach h a d -> forall f p, init_final f h p a = DOk -> exists f' p', init_final f' h p' d = DOk.
+Proof.
+  induction 1 as [a b Hin Hc | a b c Hin Hc Hr IH]; intros f p H; (destruct f; [discriminate|]);
+    destruct (init_final_ok_inv _ _ _ _ H) as [_ Hb].
+  - eexists _, _. exact (Hb b Hin Hc).
+  - exact (IH _ _ (Hb b Hin Hc)).
+Qed.
+
+Lemma cycle_not_ok h c f : reaches_cycle h c -> init_final f h [] c <> DOk.
+Proof.
+  intros [Hr | (d & Hcd & Hdd)] H.
+  - apply (init_final_ok_reach h f _ _ H c Hr). cbn. now left.
+  - destruct (init_final_ok_down h c d Hcd _ _ H) as (f' & p' & H').
+    apply (init_final_ok_reach h f' _ _ H' d Hdd). apply in_or_app. right. now left.
+Qed.
+
+Lemma for_bases_no_fuel g bs : (forall b, In b bs -> g b <> DOutOfFuel) -> for_bases g bs <> DOutOfFuel.
+Proof.
+  induction bs as [|b bs IH]; intros H; [discriminate|]. cbn [for_bases].
+  destruct (g b) eqn:E; [|discriminate|exfalso; apply (H b); [now left | assumption]].
+  apply IH. intros b' Hb'. apply H. now right.
+Qed.
+
+Lemma init_final_fuel h : forall f p o,
+  NoDup p -> incl p (map fst h) -> length h < f + length p -> init_final f h p o <> DOutOfFuel.
+Proof.
+  induction f as [|f IH]; intros p o Hn Hi Hf.
+  - exfalso. pose proof (NoDup_incl_length Hn Hi) as Hl. rewrite map_length in Hl. lia.
+  - cbn [init_final]. destruct (mem o p) eqn:E; [discriminate|]. apply mem_false_iff in E.
+    apply for_bases_no_fuel. intros b Hb. apply filter_In in Hb. destruct Hb as [Hb _]. apply IH.
+    + now apply NoDup_snoc.
+    + intros x Hx. apply in_app_or in Hx. destruct Hx as [Hx | [<-|[]]]; [now apply Hi|].
+      apply getbases_key. intros E'. rewrite E' in Hb. contradiction.
+    + rewrite app_length. cbn [length]. unfold cls in *. lia.
+Qed.
+
+Lemma cycle_reported h c :
+  reaches_cycle h c -> fst (compute_mro h c) = KCycle /\ fst (init_mro h c) = KCycle.
+Proof.
+  intros Hc.
+  assert (H : fst (compute_mro h c) = KCycle).
+  { unfold compute_mro. destruct (init_final (mro_fuel h) h [] c) eqn:E.
+    - exfalso. exact (cycle_not_ok h c _ Hc E).
+    - reflexivity.
+    - exfalso. refine (init_final_fuel h _ [] c _ _ _ E); [constructor | intros x [] |].
+      unfold mro_fuel. change (length h < S (length h) + 0). lia. }
+  split; [assumption|]. unfold init_mro. destruct (compute_mro h c) as [k l]. cbn [fst] in H. subst k. reflexivity.
+Qed.
+
+Lemma init_final_fuel_top (h : hier) c : init_final (mro_fuel h) h [] c <> DOutOfFuel.
+Proof.
+  apply init_final_fuel; [constructor | intros x [] |].
+  unfold mro_fuel. change (length h < S (length h) + 0). lia.
+Qed.
+
+Lemma init_final_acyclic_top (h : hier) rank c : acyclic h rank -> init_final (mro_fuel h) h [] c = DOk.
+Proof.
+  intros Ha. apply (init_final_acyclic h rank Ha); [constructor | intros x [] | intros x [] |].
+  unfold mro_fuel. change (length h < S (length h) + 0). lia.
+Qed.
+
+Lemma merge_sound ls r :
+  merge ls = MOk r ->
+  NoDup r /\ (forall x, In x r <-> exists l, In l ls /\ In x l) /\ (forall l, In l ls -> subseq l r).
+Proof.
+  intros H. pose proof (merge_Merges ls r H) as HM. split; [|split].
+  - eapply Merges_NoDup; eassumption.
+  - now apply Merges_elements.
+  - now apply Merges_subseq.
+Qed.
+
+Lemma find_lookup (h : hier) (ns : namespace) c n :
+  (forall d o, class_find h ns c n = Some (d, o) ->
+               lookup (defines_of ns) (class_mro h c) n d /\ contents_get ns d n = Some o) /\
+  (class_find h ns c n = None -> lookup_fails (defines_of ns) (class_mro h c) n) /\
+  (forall d, lookup (defines_of ns) (class_mro h c) n d ->
+             exists o, class_find h ns c n = Some (d, o) /\ contents_get ns d n = Some o).
+Proof.
+  unfold class_find. split; [|split].
+  - intros d o. apply find_in_some.
+  - apply find_in_none.
+  - intros d. apply lookup_find_in.
+Qed.
